@@ -105,7 +105,7 @@ def validate(w, fam, obs, label):
     if not obs:
         return set(), 0, 0, {}
     tf = w.path("rtrace-%s-%d.ndjson" % (label, len(w.tlc_runs)))
-    write_ndjson(tf, [{k: v for k, v in o.items() if k not in SLIM_DROP} for o in obs])
+    write_ndjson(tf, [{k: v for k, v in o.items() if k not in SLIM_DROP} for o in obs], clamp=True)
     r = w.tlc("MCRecvTrace", trace_cfg(fam), env={"VERIF_TRACE": tf}, label="RecvTrace-" + label, timeout=3000)
     if not r["completed"]:
         raise Broken("trace validation did not complete: " + r["out"][-3000:])
